@@ -172,35 +172,49 @@ def lean_dispatch(t):
 
 # ------------------------------------------------------------------ C06 / C07 discovery guards
 
+def _literal_names(node, consts):
+    """string list out of a list/tuple/set literal, a frozenset/tuple/list/set call on one, or a name bound to one"""
+    if isinstance(node, (ast.List, ast.Tuple, ast.Set)) and all(isinstance(e, ast.Constant) and isinstance(e.value, str) for e in node.elts):
+        return [e.value for e in node.elts]
+    if isinstance(node, ast.Call) and isinstance(node.func, ast.Name) and node.func.id in ("frozenset", "tuple", "list", "set") and len(node.args) == 1:
+        return _literal_names(node.args[0], consts)
+    if isinstance(node, ast.Name) and node.id in consts:
+        return consts[node.id]
+    return None
+
+
 def discovery_tables():
     tree = _parse(DISC)
-    fn = _funcs(tree).get("discover_network")
-    if fn is None:
+    if _funcs(tree).get("discover_network") is None:
         raise Untranslatable("no discover_network")
+    fn = _funcs(tree)["discover_network"]
+    # constant name lists bound anywhere in the module (module level or inside functions)
+    consts = {}
+    for node in ast.walk(tree):
+        if isinstance(node, ast.Assign) and len(node.targets) == 1 and isinstance(node.targets[0], ast.Name):
+            v = _literal_names(node.value, {})
+            if v is not None:
+                consts[node.targets[0].id] = v
     methods = infos = None
     guard = None
     seed = None
     rng_calls = []
-    for node in ast.walk(fn):
+    for node in ast.walk(tree):
+        if isinstance(node, ast.If) and isinstance(node.test, ast.Compare) and len(node.test.ops) == 1 and isinstance(node.test.ops[0], ast.NotIn) \
+                and isinstance(node.test.left, ast.Name) and any(isinstance(s, ast.Raise) and "NotImplementedError" in ast.dump(s) for s in node.body):
+            names = _literal_names(node.test.comparators[0], consts)
+            if node.test.left.id == "method" and names is not None:
+                methods = names
+            if node.test.left.id == "information" and names is not None:
+                infos = names
         if isinstance(node, ast.If):
             src = ast.unparse(node.test)
-            if src.startswith("method not in") and isinstance(node.test.comparators[0], (ast.List, ast.Tuple)):
-                methods = [e.value for e in node.test.comparators[0].elts]
-                if not any(isinstance(s, ast.Raise) and "NotImplementedError" in ast.dump(s) for s in node.body):
-                    methods = None
-            if src.startswith("information not in"):
-                if not any(isinstance(s, ast.Raise) and "NotImplementedError" in ast.dump(s) for s in node.body):
-                    infos = "no-raise"
-            if "max_lag" in src and src.startswith("T "):
-                if any(isinstance(s, ast.Raise) and "ValueError" in ast.dump(s) for s in node.body):
-                    guard = src
-        if isinstance(node, ast.Assign) and len(node.targets) == 1 and isinstance(node.targets[0], ast.Name):
-            if node.targets[0].id == "supported_information_types" and isinstance(node.value, ast.List):
-                if infos != "no-raise":
-                    infos = [e.value for e in node.value.elts]
-            if node.targets[0].id == "rng" and ast.unparse(node.value).startswith("np.random.default_rng("):
-                a = node.value.args
-                seed = a[0].value if a and isinstance(a[0], ast.Constant) else None
+            if "max_lag" in src and any(isinstance(s, ast.Raise) and "ValueError" in ast.dump(s) for s in node.body):
+                guard = src
+        if isinstance(node, ast.Call) and ast.unparse(node.func) == "np.random.default_rng":
+            a = node.args
+            if a and isinstance(a[0], ast.Constant) and isinstance(a[0].value, int):
+                seed = a[0].value
     # global RNG usage anywhere in the discovery module
     for node in ast.walk(tree):
         if isinstance(node, ast.Call):
@@ -210,7 +224,7 @@ def discovery_tables():
             if s.startswith("random."):
                 rng_calls.append(s)
     mod_level_rng = [ast.unparse(s) for s in tree.body if isinstance(s, ast.Assign) and "default_rng" in ast.unparse(s)]
-    return {"methods": methods, "informations": infos if isinstance(infos, list) else None, "guard": guard, "seed": seed,
+    return {"methods": methods, "informations": infos, "guard": guard, "seed": seed,
             "global_rng_calls": rng_calls, "module_level_rng": mod_level_rng, "defaults": _defaults(fn)}
 
 
